@@ -882,7 +882,7 @@ def r13e(P, R):
         while todo:
             e = todo.pop()
             for y in subnodes(e):
-                if y.get("k") in ("Call", "MethodCall"):
+                if y.get("k") in ("Call", "MethodCall") and not str(y.get("callee_dk", "")).startswith("Ctor") and "desugar" not in (y.get("x") or ""):
                     cn = call_name(y) or ""
                     calls.add(cn)
                     if "inl" not in y and cn in P.fns and cn not in seen and not P.fns[cn].derived:
@@ -940,7 +940,7 @@ def r13e(P, R):
     def outcome(root, av, tv):
         """abstract evaluation of the decision table for one (accumulated kind, next kind): which accumulated kinds can result,
         which diagnostics can be constructed — nested matches are followed for the given kinds, guards fork"""
-        succ, errs, dead = set(), set(), [False]
+        succ, errs, dead, tokens = set(), set(), [False], set()
 
         def walk(x):
             if isinstance(x, list):
@@ -958,14 +958,29 @@ def r13e(P, R):
                 return
             if x.get("k") == "Path" and str(x.get("dk", "")).startswith("Ctor"):
                 d = norm(x.get("def") or "")
-                if d.rsplit("::", 1)[0] == acc_adt.path:
+                owner = d.rsplit("::", 1)[0]
+                if owner == acc_adt.path:
                     succ.add("Wildcard" if d.split("::")[-1] == aW else "Specific")
+                elif owner != nxt_adts[0].path and owner.startswith(SEM) and owner in P.adts and P.adts[owner].kind == "Enum":
+                    tokens.add((owner, d.split("::")[-1]))      # an intermediate reason (e.g. a conflict enum), turned into a diagnostic elsewhere
             if x.get("k") == "Struct" and "rest" not in x and "variant" in x:
                 errs.add(norm(x["variant"]).split("::")[-1])
             for kk, v in x.items():
                 if isinstance(v, (dict, list)) and kk not in ("pat", "params"):
                     walk(v)
         walk(root)
+        for owner, variant in tokens:
+            # the match that turns the intermediate reason into a diagnostic: follow the arm for this variant
+            found = False
+            for m2 in f.walk():
+                if m2.get("k") == "Match" and m2.get("src") == "Normal" and peel_ty(strip(m2["scrut"]).get("t")).strip().split("<")[0] == owner:
+                    for arm in may_match(m2, variant):
+                        got = {norm(x["variant"]).split("::")[-1] for x in subnodes(arm["body"]) if x.get("k") == "Struct" and "rest" not in x and "variant" in x}
+                        if got:
+                            found = True
+                            errs |= got
+            if not found:
+                return "?"
         return None if dead[0] and not succ and not errs else (succ, errs)
 
     def rejected(s, e, name):
@@ -985,6 +1000,9 @@ def r13e(P, R):
             key = "table:%s+%s" % (a, b)
             if got is None:
                 R.undecided("R13-e", key, "no arm of the table matches (%s, %s)" % (a, b), loc=f0.loc())
+            elif got == "?":
+                R.undecided("R13-e", key, "the row (%s, %s) yields an intermediate error value whose translation into a diagnostic is not found" % (a, b),
+                            loc=f0.loc())
             else:
                 R.check("R13-e", key, pred(*got), "%s then %s %s" % (a, b, what),
                         "row (%s, %s) of the wildcard/specific table yields targets %s / errors %s; expected: %s"
